@@ -166,7 +166,11 @@ func checkMain(args []string) {
 		encs[key] = e
 		all = append(all, rep.Obs...)
 	}
-	lemObs := proveLemmas(w, ps.Lemmas)
+	lemSet := append([]string{}, ps.Lemmas...)
+	for _, rep := range reps {
+		lemSet = append(lemSet, rep.Lemmas...)
+	}
+	lemObs := proveLemmas(w, lemSet)
 	all = append(all, lemObs...)
 	solveAll(all, dir, secs, tier == "thorough", 6)
 
